@@ -99,6 +99,17 @@ CHECKS = {
                      "repeated submissions; thorough adds concurrent submissions from several threads with a "
                      "free-running I/O loop.",
                 ref="4 C09", note=NODE_NOTE + "; hop-by-hop ids unique per connection only."),
+    "C10": dict(cat="exploration", tech="node harness with real caller threads in Application.send_request; "
+                "eligibility model from configuration + ground-truth connection states; recording wrapper on the "
+                "selection callback; per-caller scripted answers",
+                text="Random configurations of 1..3 applications (ids may coincide) x 1..4 peers x 1..2 realms with "
+                     "default peers, every per-peer state (none, connected, ready, waiting-DWA, disconnecting, closed), "
+                     "4 callbacks, 1..4 concurrent callers; request frames are attributed by Session-Id; the oracle "
+                     "checks the target socket, the offered list and honoured choice, NotRoutable, hop-by-hop ids, the "
+                     "answer returned to each caller and which application's handler sees late, duplicate and unknown "
+                     "answers.",
+                ref="4 C10", note=NODE_NOTE + "; time-outs ordered logically (late answers withheld until the caller "
+                "returned); configurations avoid the configured-vs-default ambiguity of the statement."),
 }
 
 NOT_YET = "check not built yet in this round (planned in DESIGN.md section 4); no claim is made"
